@@ -685,6 +685,10 @@ _PY_TEXT = {
     "PY4": "no mutable default argument that the function changes or keeps, no `[<mutable>] * n`, no dict.fromkeys(keys, <mutable>)",
     "PY6": "no float-typed value (end_time, start_time, duration ...) is stored into an array created with an integer dtype or integer fill value (numpy truncates silently)",
     "PY7": "no dataclass fills a defaulted INIT field in __post_init__ from other init fields (the derived value is passed on by dataclasses.replace and goes stale)",
+    "PY8": "no __post_init__ / __init__ overrides one of a base class that stores fields without calling it (the base set-up is skipped for the subclass)",
+    "PY9": "no itertools.groupby over an unsorted iterable whose groups are stored under their key (a key that re-appears overwrites its earlier run)",
+    "PY10": "no memoised accessor (cached_property / lru_cache) is computed from a mutable container field of the same object",
+    "PY11": "no subclass re-declares an inherited dataclass init field as a plain (un-annotated) class attribute: the inherited __init__ hides it on every instance",
     "PY5": "no truth test of a value declared Optional[T] where T has falsy legitimate values (0, '', a zero-valued IntEnum member, an object with __len__ / __bool__): None is tested with `is None`",
 }
 
